@@ -133,7 +133,9 @@ META.update({
         "text": "TrustedIter.tla lowers every library adaptor to the std combinators it is built from with the length it "
                 "declares (ConstructionTruthful over the whole parameter band incl. lags beyond the series, k >= len, empty "
                 "input) and models the consumption of the library's own TrustIter / Linspace under every interleaving of "
-                "next / next_back (HintExact in every reachable state)." + TWOWAY,
+                "next / next_back (HintExact in every reachable state); TrustProof.tla proves the closed forms of the lowered "
+                "adaptors (tied to the combinator trees by ClosedFormsAgree) equal to the required length for EVERY source "
+                "length, lag, window and k with the TLA+ proof system." + TWOWAY,
         "note": NOTE + " std's combinators are trusted; iterators reach the trusted collectors only after a safe count.",
         "design": "DESIGN.md section 6 C09",
     },
